@@ -388,8 +388,21 @@ def _flagname(f):
     return {True: "singlet", False: "nonsinglet", None: "generic"}[f]
 
 
+def _warmup():
+    """First use of the numba-typed containers/mpmath tables costs seconds per process: pay it once in
+    the parent so that the forked workers inherit the initialised state (results are discarded)."""
+    job_integer(([1, 2], 2))
+    job_complex((complex(2.5, 0.5), False))
+    job_mellin_log((complex(2.5, 0.5), False))
+    job_polygamma([complex(-1.5, 0.5)])
+    from ekore.harmonics import cache as c
+
+    job_cache((complex(2.5, 0.5), True, [np.arange(c.CACHE_SIZE)]))
+
+
 def run(ck):
     rng = ck.rng
+    _warmup()
     Nmax = ck.n(30, 60)
     # ---------------- integer N: exact rationals
     chunks = [(list(range(i, Nmax + 1, 8)), Nmax) for i in range(1, 9)]
